@@ -47,6 +47,8 @@ reg("C10", "h_c10")
 reg("C11", "h_c11")
 reg("C11", "h_c10")
 reg("C13", "h_c13")
+reg("C03", "h_c03")
+reg("C03", "h_c03_deep", "asan")
 
 # quick / thorough wall-clock budgets per check (seconds); hitting one ends the run with exhaustive:false
 DEADLINE = {"quick": 150, "thorough": 1500}
